@@ -76,7 +76,8 @@ def judge(v, records, sc, tag):
                 ev = json.loads(lines[l - 1])
                 detail = "%s %s on %s (%s; tokens %s, script %s): %s" % (rq["verb"], rq["url"], eng, rq["kind"], rq.get("toks"), rq.get("script"),
                                                                            json.dumps(ev.get("obs", ev.get("outcomes")))[:500])
-                viol.append({"prop": prop, "id": cid, "what": what, "detail": detail, "engine": eng, "kind": rq["kind"], "url": rq["url"], "toks": rq.get("toks") or []})
+                hyphen = any(p["in"] == "path" and "-" in p["wire"] for p in (rq.get("handler") or {}).get("params", []))
+                viol.append({"prop": prop, "id": cid, "what": what, "detail": detail, "engine": eng, "kind": rq["kind"], "url": rq["url"], "toks": rq.get("toks") or [], "hyphenPath": hyphen})
     runs = sum(1 for x in lines if x.startswith('{"ev":"Run"'))
     cmps = n - runs
     kinds = collections.Counter()
@@ -87,7 +88,13 @@ def judge(v, records, sc, tag):
     return findings + viol, stats, kinds
 
 
+def _hyphen_path(f):
+    # a path parameter whose wire name contains '-' (the request URL does not show the name: look at the handler in the detail text)
+    return f.get("hyphenPath", False)
+
+
 KNOWN_RULES = [
+    ("fiber-hyphen-in-path-param", {"C02", "C03", "C05", "C12"}, lambda f: _hyphen_path(f) and (f.get("engine") in ("fiber", "cmp"))),
     # (signature, property set, predicate on a finding)
     ("echo-trailing-param-matches-slashes", {"C02", "C12"}, lambda f: f.get("engine") == "echo" and f.get("kind") == "probe" and "/zz/extra" in f.get("url", "")),
     ("fiber-empty-header-is-absent", {"C12"}, lambda f: f.get("kind") == "token" and "empty" in f.get("toks", [])),
@@ -199,8 +206,8 @@ def run(tier, prop):
     st = meta["stats"]
     kinds = meta["kinds"]
     ev = {"C02": st["runs"], "C03": st["runs"], "C05": st["runs"], "C12": st["cmps"], "C09": st.get("C09", 0)}[prop]
-    nt = {"C02": kinds.get("probe", 0) * 5 + kinds.get("auth", 0), "C03": (kinds.get("auth", 0) + kinds.get("refused+invalid", 0)) * 5,
-          "C05": (kinds.get("token", 0) + kinds.get("absent", 0)) * 5, "C12": kinds.get("token", 0) + kinds.get("absent", 0) + kinds.get("fail", 0) + kinds.get("refused+invalid", 0),
+    nt = {"C02": kinds.get("probe", 0) * 5 + kinds.get("auth", 0), "C03": (kinds.get("auth", 0) + kinds.get("auth-same-error", 0) + kinds.get("refused+invalid", 0)) * 5,
+          "C05": (kinds.get("token", 0) + kinds.get("absent", 0) + kinds.get("absent+decoy", 0)) * 5, "C12": kinds.get("token", 0) + kinds.get("absent", 0) + kinds.get("fail", 0) + kinds.get("refused+invalid", 0),
           "C09": st.get("C09nt", 0)}[prop]
     if ev == 0:
         raise c.Trouble("property %s was not exercised by the recording" % prop)
@@ -208,7 +215,7 @@ def run(tier, prop):
     for line in open(os.path.join(d, "records.ndjson")):
         r = json.loads(line)
         for q in (r.get("requests") or [])[:400]:
-            if len(sample) < 3 and q["kind"] in {"C02": ("probe", "auth"), "C03": ("auth", "refused+invalid"), "C05": ("token", "absent"), "C12": ("fail", "token"), "C09": ("auth",)}[prop]:
+            if len(sample) < 3 and q["kind"] in {"C02": ("probe", "auth"), "C03": ("auth", "auth-same-error", "refused+invalid"), "C05": ("token", "absent", "absent+decoy"), "C12": ("fail", "token"), "C09": ("auth",)}[prop]:
                 sample.append({"case": r["id"], "kind": q["kind"], "verb": q["verb"], "url": q["url"], "script": q.get("script"), "tokens": q.get("toks")})
         if len(sample) >= 3:
             break
